@@ -489,6 +489,18 @@ func Check(c Case) (v vcase.Verdict) {
 			v.Failf("AssumeNormal.Compare: Alpha = %v, the samples were created with threshold %v", cmp.Alpha, c.Alpha)
 			return
 		}
+		// When the test cannot be carried out (a sample too small, no variance at all) the
+		// comparison says so and reports no significant difference: p = 1.
+		if len(cmp.Warnings) > 0 {
+			v.Label("normal_test_not_possible")
+			if cmp.P != 1 {
+				v.Failf("AssumeNormal.Compare(%v, %v): the test failed (%v) but P = %v instead of 1 (no significant difference)", c.X1, c.X2, cmp.Warnings, cmp.P)
+				return
+			}
+		} else if n1 < 2 || n2 < 2 {
+			v.Failf("AssumeNormal.Compare(%v, %v): P = %v without a warning although a sample has fewer than two values", c.X1, c.X2, cmp.P)
+			return
+		}
 		if n1 >= 2 && n2 >= 2 {
 			ts := refstat.Welch(c.X1, c.X2)
 			sd1 := math.Sqrt(refstat.F64(ts.V1))
